@@ -447,6 +447,95 @@ impl RingBuffer {
     }
 }
 
+/// Verification hook: a public wrapper around the private per-connection `RingBuffer`.
+#[cfg(virtio_drivers_verif)]
+#[derive(Debug)]
+pub struct VerifRingBuffer(RingBuffer);
+
+#[cfg(virtio_drivers_verif)]
+impl VerifRingBuffer {
+    /// `RingBuffer::new`.
+    pub fn new(capacity: usize) -> Self {
+        Self(RingBuffer::new(capacity))
+    }
+
+    /// `RingBuffer::add`.
+    pub fn add(&mut self, bytes: &[u8]) -> bool {
+        self.0.add(bytes)
+    }
+
+    /// `RingBuffer::drain`.
+    pub fn drain(&mut self, out: &mut [u8]) -> usize {
+        self.0.drain(out)
+    }
+
+    /// `RingBuffer::used`.
+    pub fn used(&self) -> usize {
+        self.0.used()
+    }
+
+    /// `RingBuffer::free`.
+    pub fn free(&self) -> usize {
+        self.0.free()
+    }
+
+    /// `RingBuffer::is_empty`.
+    pub fn is_empty(&self) -> bool {
+        self.0.is_empty()
+    }
+
+    /// The private state `(buffer contents, used, start)`.
+    pub fn snapshot(&self) -> (Vec<u8>, usize, usize) {
+        (self.0.buffer.to_vec(), self.0.used, self.0.start)
+    }
+
+    /// Presets the private cursor (`start < capacity`, `used <= capacity`).
+    pub fn set_cursor(&mut self, used: usize, start: usize) {
+        self.0.used = used;
+        self.0.start = start;
+    }
+}
+
+#[cfg(virtio_drivers_verif)]
+impl<H: Hal, T: Transport, const RX_BUFFER_SIZE: usize>
+    VsockConnectionManager<H, T, RX_BUFFER_SIZE>
+{
+    /// Verification hook: the credit counters of a connection (see
+    /// `ConnectionInfo::verif_counters`) and the private state `(buffer contents, used, start)` of
+    /// its receive buffer.
+    #[allow(clippy::type_complexity)]
+    pub fn verif_connection(
+        &mut self,
+        peer: VsockAddr,
+        src_port: u32,
+    ) -> Option<((u32, u32, u32, u32, bool), u32, (Vec<u8>, usize, usize))> {
+        let (_, c) = get_connection(&mut self.connections, peer, src_port).ok()?;
+        Some((
+            c.info.verif_counters(),
+            c.info.buf_alloc,
+            (c.buffer.buffer.to_vec(), c.buffer.used, c.buffer.start),
+        ))
+    }
+
+    /// Verification hook: presets the credit counters of a connection (see
+    /// `ConnectionInfo::verif_set_counters`). Returns false if there is no such connection.
+    pub fn verif_set_counters(
+        &mut self,
+        peer: VsockAddr,
+        src_port: u32,
+        counters: (u32, u32, u32, u32, bool),
+    ) -> bool {
+        match get_connection(&mut self.connections, peer, src_port) {
+            Ok((_, c)) => {
+                c.info
+                    .verif_set_counters(counters.0, counters.1, counters.2, counters.3, counters.4);
+                true
+            }
+            Err(_) => false,
+        }
+    }
+}
+
 #[cfg(test)]
 mod tests {
     use super::*;
